@@ -317,6 +317,39 @@ static void mode_random(args const &a)
 	}
 }
 
+// very long messages: the length fields of the hash functions (bit counts beyond 2^32, byte counts beyond 2^31 in one append)
+#include <sys/mman.h>
+static void mode_big(args const &a)
+{
+	bool huge = a.has("huge");
+	// (length, largest single append): 512 MiB and one byte more - where a 32-bit bit count wraps; with --huge also 2 GiB in one append
+	std::vector<std::pair<size_t, size_t> > cases;
+	cases.push_back(std::make_pair(((size_t)512 << 20) - 1, (size_t)64 << 20));
+	cases.push_back(std::make_pair(((size_t)512 << 20) + 1, (size_t)64 << 20));
+	if (huge) { cases.push_back(std::make_pair(((size_t)2 << 30) + 5, ((size_t)2 << 30) + 5)); cases.push_back(std::make_pair(((size_t)4 << 30) + 3, (size_t)1 << 30)); }
+	for (auto const &cs : cases) {
+		size_t n = cs.first;
+		char *buf = (char *)mmap(0, n, PROT_READ | PROT_WRITE, MAP_PRIVATE | MAP_ANONYMOUS | MAP_NORESERVE, -1, 0);
+		if (buf == MAP_FAILED) { O().count("big_cases_skipped_no_memory"); continue; }
+		for (size_t i = 0; i < n; i += 4096) buf[i] = (char)(i >> 12);
+		buf[n - 1] = 'z';
+		for (alg const &al : ALGS) {
+			if (!huge && al.gc != GCRY_MD_SHA1 && al.gc != GCRY_MD_MD5) continue;
+			std::unique_ptr<cppcms::crypto::message_digest> d = cppcms::crypto::message_digest::create_by_name(al.name);
+			if (!d.get()) continue;
+			for (size_t off = 0; off < n; off += cs.second) d->append(buf + off, std::min(cs.second, n - off));
+			std::string got(al.dlen, '\0'); d->readout(&got[0]);
+			std::string want(al.dlen, '\0');
+			gcry_md_hd_t h; if (gcry_md_open(&h, al.gc, 0)) { fprintf(stderr, "gcry_md_open failed\n"); exit(3); }
+			gcry_md_write(h, buf, n); want.assign((char const *)gcry_md_read(h, 0), al.dlen); gcry_md_close(h);
+			O().count("big_digests"); O().count("checks");
+			std::string rp = "{\"alg\":\"" + std::string(al.name) + "\",\"len\":" + std::to_string(n) + ",\"append_size\":" + std::to_string(cs.second) + "}";
+			if (got != want) O().viol(std::string("digest:wrong:") + al.name + ":message-of-512MiB-or-more", "length " + std::to_string(n) + " appended in pieces of " + std::to_string(cs.second) + ": " + hex(got) + " instead of " + hex(want), rp);
+		}
+		munmap(buf, n);
+	}
+}
+
 int main(int argc, char **argv)
 {
 	args a(argc, argv);
@@ -327,6 +360,7 @@ int main(int argc, char **argv)
 	if (mode == "vectors") mode_vectors();
 	else if (mode == "grid") mode_grid(a);
 	else if (mode == "random") mode_random(a);
+	else if (mode == "big") mode_big(a);
 	finish(a);
 	return O().viol_count ? 1 : 0;
 }
